@@ -29,10 +29,63 @@ Proof. rewrite (count_occ_In Nat.eq_dec). lia. Qed.
 
 (* ---- packed counter arithmetic ---- *)
 
+(** what the REGENERATED arithmetic (gen/CountsFns.v, from threadpool/mod.rs) amounts to: these
+    equalities are where a change of [EXPECTED_SHIFT], of the mask, of the halves, of the words added
+    by [expect_one] / [complete_one] or of the completion test stops the development *)
+Lemma expected_spec v : expected v = ((v / SHIFT) mod SHIFT)%N.
+Proof.
+  unfold expected, CountsFns.expected, CountsFns.EXPECTED_SHIFT, SHIFT.
+  rewrite N.shiftr_div_pow2. reflexivity.
+Qed.
+
+Lemma completed_spec v : completed v = (v mod SHIFT)%N.
+Proof.
+  unfold completed, CountsFns.completed, CountsFns.COMPLETED_MASK, SHIFT.
+  change 4294967295%N with (N.ones 32). rewrite N.land_ones.
+  change (2 ^ 32)%N with 4294967296%N. apply N.mod_mod. discriminate.
+Qed.
+
+Lemma init_word_spec : CountsFns.with_root_callback = SHIFT.
+Proof. vm_compute. reflexivity. Qed.
+
+Lemma expect_guard_spec v : CountsFns.expect_one_guard v = (expected v <? U32MAX)%N.
+Proof. reflexivity. Qed.
+
+Lemma expect_next_spec v : CountsFns.expect_one_next v = add64 v SHIFT.
+Proof.
+  unfold CountsFns.expect_one_next, CountsFns.EXPECTED_SHIFT, add64, U64MOD, SHIFT. cbv zeta.
+  change (N.shiftl 1 32 mod 18446744073709551616)%N with 4294967296%N. reflexivity.
+Qed.
+
+Lemma complete_next_spec v : CountsFns.complete_one_next v = add64 v 1.
+Proof. reflexivity. Qed.
+
+(** [complete_one] hands the word BEFORE its addition to the completion test, which is an EQUALITY
+    between completed + 1 (u32, wrapping) and expected *)
+Lemma is_last_word_spec c : is_last c = N.eqb ((completed c + 1) mod SHIFT) (expected c).
+Proof. reflexivity. Qed.
+
+(** all of it in one statement over plain numerals (pinned as [c19_counts_packing]) *)
+Theorem counts_packing : forall v : N,
+  CountsFns.EXPECTED_SHIFT = 32%N /\ CountsFns.COMPLETED_MASK = 4294967295%N /\
+  CountsFns.with_root_callback = 4294967296%N /\
+  expected v = ((v / 4294967296) mod 4294967296)%N /\
+  completed v = (v mod 4294967296)%N /\
+  CountsFns.expect_one_guard v = (expected v <? 4294967295)%N /\
+  CountsFns.expect_one_next v = ((v + 4294967296) mod 18446744073709551616)%N /\
+  CountsFns.complete_one_next v = ((v + 1) mod 18446744073709551616)%N /\
+  CountsFns.complete_one_result v = v /\
+  is_last v = ((completed v + 1) mod 4294967296 =? expected v)%N.
+Proof.
+  intro v. repeat split; try reflexivity.
+  - apply expected_spec.
+  - apply completed_spec.
+Qed.
+
 Lemma decode (E C : N) : (E <= U32MAX)%N -> (C <= U32MAX)%N ->
   expected (E * SHIFT + C) = E /\ completed (E * SHIFT + C) = C.
 Proof.
-  intros HE HC. unfold expected, completed, U32MAX, SHIFT in *.
+  intros HE HC. rewrite expected_spec, completed_spec. unfold U32MAX, SHIFT in *.
   assert (HC' : (C < 4294967296)%N) by lia.
   split.
   - rewrite N.div_add_l by lia. rewrite (N.div_small C) by lia.
@@ -99,7 +152,9 @@ Qed.
 Lemma is_last_spec s : Inv s -> length (fins s) < length (spawned s) ->
   is_last (cnt s) = Nat.eqb (S (length (fins s))) (length (spawned s)).
 Proof.
-  intros I Hlt. unfold is_last. destruct (decode_s s I) as [-> ->].
+  intros I Hlt. rewrite is_last_word_spec. destruct (decode_s s I) as [-> ->].
+  pose proof (i_bound s I) as Hb. unfold U32MAX in Hb.
+  rewrite N.mod_small by (unfold SHIFT; lia).
   destruct (Nat.eqb_spec (S (length (fins s))) (length (spawned s))) as [E|N].
   - apply N.eqb_eq. lia.
   - apply N.eqb_neq. lia.
@@ -158,11 +213,12 @@ Proof.
     try (rename H into Hrun; rewrite Hrun in *; specialize (Hrnd (app_neq_nil _ _ _))).
   - (* expect *)
     rename H0 into Hfresh. rename H1 into Hguard.
-    rewrite Hexp in Hguard.
+    rewrite expect_guard_spec in Hguard. apply N.ltb_lt in Hguard. rewrite Hexp in Hguard.
     assert (Hk0 : occ (spawned s) k = 0) by (apply count_occ_not_In; auto).
     constructor; unfold task_rec;
       cbn [cnt queue run caller done_msgs slot rooterr reported sent spawned runs fins ptask proot]; auto.
-    + rewrite add64_small; rewrite Icnt; unfold U32MAX, U64MOD, SHIFT in *; cbn [length]; lia.
+    + rewrite expect_next_spec.
+      rewrite add64_small; rewrite Icnt; unfold U32MAX, U64MOD, SHIFT in *; cbn [length]; lia.
     + cbn [length]. unfold U32MAX in *. lia.
     + intro k0. specialize (Ipart k0). occs.
     + intro k0. specialize (Inodup k0). occs.
@@ -268,7 +324,8 @@ Proof.
       destruct Icaller as [[? ?]|[? ?]]; [split; auto|exfalso]; occs. }
     constructor; unfold task_rec;
       cbn [cnt queue run caller done_msgs slot rooterr reported sent spawned runs fins ptask proot]; auto.
-    + rewrite add64_small; rewrite Icnt; unfold U32MAX, U64MOD, SHIFT in *; cbn [length]; lia.
+    + rewrite complete_next_spec.
+      rewrite add64_small; rewrite Icnt; unfold U32MAX, U64MOD, SHIFT in *; cbn [length]; lia.
     + intro k0. specialize (Ipart k0). occs.
     + intro k0. specialize (Iruns k0). occs.
     + occs.
@@ -483,6 +540,20 @@ Proof.
     destruct (IH _ eq_refl) as (q1 & q2 & -> & ->). exists (k' :: q1), q2. auto.
 Qed.
 
+Theorem scope_uses_regenerated_counts :
+  cnt init = CountsFns.with_root_callback /\
+  (forall s w k s', step s (LExpect w k) s' ->
+     CountsFns.expect_one_guard (cnt s) = true /\ cnt s' = CountsFns.expect_one_next (cnt s)) /\
+  (forall s w s', step s (LComplete w) s' ->
+     cnt s' = CountsFns.complete_one_next (cnt s) /\
+     sent s' = if CountsFns.scope_complete_is_last (CountsFns.complete_one_result (cnt s))
+               then S (sent s) else sent s).
+Proof.
+  split; [reflexivity|]. split.
+  - intros s w k s' H. inversion H; subst. split; auto.
+  - intros s w s' H. inversion H; subst. split; reflexivity.
+Qed.
+
 Lemma mem_false k l : mem k l = false -> ~ In k l.
 Proof.
   induction l; simpl; auto. intros H [E|Hin].
@@ -494,8 +565,8 @@ Theorem exec_sound s l s' : exec s l = Some s' -> step s l s'.
 Proof.
   destruct l; simpl; intro H.
   - destruct (upd_pc w Body (Enq k) (run s)) eqn:E; [|discriminate].
-    destruct (negb (mem k (spawned s)) && (expected (cnt s) <? U32MAX)%N)%bool eqn:G; [|discriminate].
-    apply andb_prop in G. destruct G as [G1 G2]. apply negb_true_iff in G1. apply N.ltb_lt in G2.
+    destruct (negb (mem k (spawned s)) && CountsFns.expect_one_guard (cnt s))%bool eqn:G; [|discriminate].
+    apply andb_prop in G. destruct G as [G1 G2]. apply negb_true_iff in G1.
     injection H as <-. destruct (upd_pc_spec _ _ _ _ _ E) as (r1 & r2 & Hr & ->).
     apply SExpect; auto. apply mem_false. auto.
   - destruct (upd_pc w (Enq k) Body (run s)) eqn:E; [|discriminate].
